@@ -222,9 +222,6 @@ def run_case(case: dict) -> Result:
             if a.refusal_documented and isinstance(raised, ValueError):
                 classes.add('documented-refusal')
                 break
-            if a.family == 'view' and op.get('op') == 'reverse' and (
-                    'vals' not in op or any(isinstance(x, base.RawModel) for x in a.ref.get('cur', []))):
-                break  # reverse() re-assigns attached nodes: a refusal, outside this property
             res.bad(f'unexpected-error:{a.family}:{a.shape}:{type(raised).__name__}',
                     f'{what} on {type(P).__name__}.{a.prop} (content {_show(a.ref.get("cur", []))}) raised {raised!r}; a list accepts it')
             break
